@@ -128,6 +128,9 @@ struct Primitive {
         enc.write(val);
     }
     static void decode(Decoder &reader, T &val) {
+        if constexpr (std::is_arithmetic_v<T>) {
+            reader.need(sizeof(T));
+        }
         reader.read(val);
     }
 };
@@ -140,6 +143,7 @@ struct OVMHandle {
         enc.write(val.idx());
     }
     static void decode(Decoder &reader, T &val) {
+        reader.need(sizeof(int));
         reader.read(val.idx_mutable());
     }
 };
